@@ -318,6 +318,21 @@ func TestVerif_C14(t *testing.T) {
 	e.fs.SetHook(nil)
 	e.srv.Close()
 
+	// state: an allow-list is configured (the client is on it): every reply as well-formed as without
+	e, err = vfC14Setup(ExportOptions{AttrCacheTimeout: 1, AllowedIPs: []string{"127.0.0.1", "10.0.0.0/8", "2001:db8::/32"}})
+	if err != nil {
+		rec.Infra(err.Error())
+		return
+	}
+	runAll("allow-list", e, nil)
+	e.srv.Close()
+	e, err = vfC14Setup(ExportOptions{AttrCacheTimeout: 1, AllowedIPs: []string{"127.0.0.1"}, Squash: "root", EnableDirCache: true, CacheNegativeLookups: true, MaxFileSize: 1 << 20})
+	if err != nil {
+		rec.Infra(err.Error())
+		return
+	}
+	runAll("non-default-options", e, nil)
+	e.srv.Close()
 	// state: read-only
 	e, err = vfC14Setup(ExportOptions{AttrCacheTimeout: 1, ReadOnly: true})
 	if err != nil {
